@@ -2611,6 +2611,30 @@ def check_C16(ctx):
     alld = set()
     for t in defs.TABLES.values():
         alld |= set(t)
+    # … and the other way round: an id the table declares by name resolves to that name (`identity`), so without a
+    # definition in any mode every frame with that class/id is refused, where an undeclared id would be read as NOMINAL.
+    # The pseudo-classes that only name NMEA / RTCM / SPARTN rate settings (no id of theirs has a definition) are not
+    # message types; within a class that has definitions, every declared id must have one.
+    usable = {}
+    for k in UBX_MSGIDS:
+        ok_modes = []
+        for mode in (GET, SET, POLL):
+            try:
+                UBXMessage(k[0:1], k[1:2], mode, payload=k[2:3])
+                ok_modes.append(mode)
+            except UBXMessageError as e:
+                if "nknown message type" not in str(e) and "nknown" not in str(e):
+                    ok_modes.append(mode)
+            except Exception:  # noqa  (any other refusal means a definition was found and walked)
+                ok_modes.append(mode)
+        usable[k] = ok_modes
+        res.count()
+    live_classes = {k[0:1] for k, m in usable.items() if m}
+    for k, m in usable.items():
+        if not m and k[0:1] in live_classes:
+            res.finding(f"msgid={k.hex()};rule=no-definition",
+                        f"message id {k.hex()} is declared as {UBX_MSGIDS[k]} but has no payload definition in any mode: "
+                        "every frame with this class/id is refused", dict(msgid=k.hex(), name=UBX_MSGIDS[k]))
     samples = [lines[0], mo[0][:120]]
     res.assumptions = ["the grammar is the one under 'Extensibility' in README.md, made precise in DESIGN.md §7 C16 (W1–W9)"]
     return res.finish("every entry of the GET/SET/POLL tables (exhaustive): translator round-trip, grammar rules W1–W9 stated independently in Python, nominal instance built and re-parsed, field-count vs attribute-count", samples)
